@@ -423,7 +423,9 @@ def char_case(ctx, args, st):
 
 @model(r'^(?:core::)?char::methods::<impl char>::(is_whitespace|is_ascii_digit|is_alphanumeric|is_ascii)$')
 def char_pred(ctx, args, st):
-    c = args[0]; cv = c.concrete() if c.concrete() is not None else c.e
+    c = args[0]
+    while isinstance(c, Ref): c = st.deref(c)
+    cv = c.concrete() if c.concrete() is not None else c.e
     op = ctx.callee.rsplit('::', 1)[-1]
     if op == 'is_whitespace':
         r = is_whitespace_expr(cv)
@@ -638,7 +640,7 @@ def _concrete_usize(ex, st, iv, hi):
         yield s2, k
 
 
-@model(r'^<str as Index<(?:std::ops::)?(Range|RangeFrom|RangeTo|RangeFull)(?:<usize>)?>>::index$|^(?:core::)?str::traits::<impl Index<.*> for str>::index$|^<String as Index<(?:std::ops::)?(Range|RangeFrom|RangeTo|RangeFull)(?:<usize>)?>>::index$')
+@model(r'^<str as Index<(?:std::ops::)?(Range|RangeFrom|RangeTo|RangeFull|RangeInclusive)(?:<usize>)?>>::index$|^(?:core::)?str::traits::<impl Index<.*> for str>::index$|^<String as Index<(?:std::ops::)?(Range|RangeFrom|RangeTo|RangeFull|RangeInclusive)(?:<usize>)?>>::index$')
 def str_index_range(ctx, args, st):
     s = str_of(st, args[0]); rng = args[1]
     if s.facts is not None: raise Unsupported('byte slicing of an abstract string')
@@ -649,8 +651,12 @@ def str_index_range(ctx, args, st):
             bounds = {0: 0}; off = 0
             for i, l in enumerate(lens):
                 off += l; bounds[off] = i + 1
-            lo_v = rng.items[0] if rng.ty in ('Range', 'RangeFrom') else Int(0, 'usize')
+            lo_v = rng.items[0] if rng.ty in ('Range', 'RangeFrom', 'RangeInclusive') else Int(0, 'usize')
             hi_v = rng.items[1] if rng.ty == 'Range' else rng.items[0] if rng.ty == 'RangeTo' else Int(total, 'usize')
+            if rng.ty == 'RangeInclusive':
+                e = rng.items[1]
+                ec = e.concrete()
+                hi_v = Int(ec + 1, 'usize') if ec is not None else Int(z3.simplify(e.e + 1), 'usize')
             for s2, lo in _concrete_usize(ctx.ex, s1, lo_v, total + 4):
                 for s3, hi in _concrete_usize(ctx.ex, s2, hi_v, total + 4):
                     if lo is None or hi is None or lo > hi or hi > total:
